@@ -486,11 +486,17 @@ fn gen_stream(gen: usize, rng: &mut Rng, enc: &mut Encoder, stream_hint: u32) ->
             out
         }
         3 => hostile_chunks(rng, enc.chunk_size),
-        6 => {
-            // more than 1024 tiny valid messages in one stream (loops with a bound per call)
-            let n = if rng.chance(1, 25) { *rng.pick(&[65_537usize, 70_000]) } else { *rng.pick(&[1025usize, 1026, 1030, 1100, 2049, 2100]) };
+        6 | 8 => {
+            // more than 1024 tiny valid messages in one stream (loops with a bound per call); 8: 10-200
+            let n = if gen == 8 { rng.usize(10, 200) } else if rng.chance(1, 25) { *rng.pick(&[65_537usize, 70_000]) } else { *rng.pick(&[1025usize, 1026, 1030, 1100, 2049, 2100]) };
             let mut out = Vec::new();
             let mut ts = rng.u32() % 1000;
+            // half of these streams open with a small acknowledgement window, so that the session's
+            // acknowledgements fall between its answers
+            if rng.coin() {
+                let w = *rng.pick(&[35u32, 100, 1000, 5000]);
+                out.extend(enc.encode_simple(&Msg { type_id: 5, msid: 0, ts: 0, data: w.to_be_bytes().to_vec() }, 2));
+            }
             for i in 0..n {
                 ts = ts.wrapping_add(rng.below(30) as u32);
                 let m = match (i + rng.usize(0, 1)) % 4 {
@@ -1025,7 +1031,7 @@ impl Check for C03 {
     }
     fn assumptions(&self) -> Vec<String> {
         vec![
-            "hang = a case exceeding 20 CPU-seconds (normal cost < 5 ms); memory bound constants as in DESIGN 2.3".to_string(),
+            "hang = a monitored library call using more than 4 CPU-seconds of its thread, or a case exceeding 60 CPU-seconds (normal cost < 5 ms; the volume runs take about 2 s); memory bound constants as in DESIGN 2.3".to_string(),
             "AMF0 nesting is bounded by 32 here; unbounded nesting is C14; > 4 GiB volume is exercised by C17's volume run".to_string(),
             "release build with overflow-checks = true and debug-assertions = true, so arithmetic overflow is an observable event".to_string(),
         ]
